@@ -1,5 +1,5 @@
 CONSTANTS JCs = {1} Horizon = 9 Ids = {1,2,3} Windows <- W1 MaxMissed = 2 MaxDown = 3 MaxOps = 1 MaxLag = 1 MaxFaults = 0 MaxRestarts = 2 MaxTick = 4
-  Pols = {"Allow"} PreBoot = TRUE WithRecon = FALSE Workers = {1}
+  Pols = {"Allow"} PreBoot = TRUE WithRecon = FALSE Workers = {1} Relists = FALSE
 SPECIFICATION Spec
 INVARIANTS TypeOK
 PROPERTIES C01_C03_C04_Pass C04_BootHeap
